@@ -300,7 +300,7 @@ def _work_tlc(args):
                 box = (9.0, 9.5, 10.0) if i % 3 else (9.0, 9.5, 10.0, 0.0, 0.0, 1.5, 0.0, 2.0, 2.5)
                 sysm = Sys(wd, 'in', species, beh['mols'], rng, title=['extrapolation input', '', 'a b  c ; t= 1.0'][i % 3], box=box)
                 ops = [(o[0] if o[0] != 'ExtrapolateErr' else 'Extrapolate', o[1]) for o in beh['ops']]
-                ev, present = run_manager(sysm, ops, float(rng.choice([0.5, 1.0, 0.2, 1.9])), os.path.join(wd, 'out.gro'))
+                ev, present = common.guarded(run_manager, 300, sysm, ops, float(rng.choice([0.5, 1.0, 0.2, 1.9])), os.path.join(wd, 'out.gro'))
                 if ev is None:
                     skipped += 1
                     continue
@@ -362,7 +362,7 @@ def _work_random(args):
             wd = os.path.join(workdir, 'p%d' % os.getpid(), 'r%d' % (tid % 40))
             try:
                 sysm = Sys(wd, 'in', species, mols, rng, title=title, box=box)
-                ev, present = run_manager(sysm, ops, float(rng.uniform(0.05, 2.0)), os.path.join(wd, 'out.gro'))
+                ev, present = common.guarded(run_manager, 300, sysm, ops, float(rng.uniform(0.05, 2.0)), os.path.join(wd, 'out.gro'))
             except Exception as exc:
                 import traceback
                 ev = [{'op': 'Exception', 'type': type(exc).__name__, 'text': traceback.format_exc()[-700:]}]
